@@ -44,3 +44,59 @@ def parsePinned (tokens r : Nat) : Producer := recvN r (start tokens)
 def parseFixed (tokens r : Nat) : Producer := drain (tokens + 1) (recvN r (start tokens))
 
 end P2.Proc
+
+/-! ## Process model of a parallel map/accept stage (`iterator.initParallel` behind
+`autoParallelStage`, `/repo/value/list.go`)
+
+Processes: the main loop (sends the remaining `src` items of the source on the unbuffered `source`
+channel, closes it at the end or when the stage was stopped), `idle + holding + exited` symmetric
+workers (receive an item, map it, send the result on the unbuffered `result` channel; exit when
+`source` is closed), the closer (closes `result` when all workers have exited) and the collector
+(receives results and calls the consumer; ends when `result` is closed). Unbuffered channels: a send
+is a rendezvous. `variantFixed = true` is the repaired code: when the consumer asks to stop, the stage
+sets `stopped` (the source is cut off) and the collector keeps receiving and discards; `false` is the
+pinned behaviour: the collector returns at once. -/
+
+structure Par where
+  src : Nat            -- items the main loop has not sent yet
+  idle : Nat           -- workers waiting to receive
+  holding : Nat        -- workers holding a result they have to send
+  mainDone : Bool      -- `source` closed
+  collector : Bool     -- collector goroutine alive (receiving)
+  stopped : Bool       -- the consumer asked to stop
+  deriving DecidableEq, Repr
+
+def Par.init (items workers : Nat) : Par :=
+  { src := items, idle := workers, holding := 0, mainDone := false, collector := true, stopped := false }
+
+/-- every process has terminated -/
+def Par.final (s : Par) : Prop := s.mainDone = true ∧ s.idle = 0 ∧ s.holding = 0 ∧ s.collector = false
+
+inductive Step (fixed : Bool) : Par → Par → Prop
+  /-- rendezvous main loop → idle worker -/
+  | dispatch (s : Par) : s.mainDone = false → s.stopped = false → 0 < s.src → 0 < s.idle →
+      Step fixed s { s with src := s.src - 1, idle := s.idle - 1, holding := s.holding + 1 }
+  /-- the source is exhausted or was stopped: `close(source)` -/
+  | mainEnd (s : Par) : s.mainDone = false → (s.src = 0 ∨ s.stopped = true) →
+      Step fixed s { s with mainDone := true }
+  /-- rendezvous worker → collector, the consumer wants more (or the result is discarded) -/
+  | deliver (s : Par) : 0 < s.holding → s.collector = true →
+      Step fixed s { s with holding := s.holding - 1, idle := s.idle + 1 }
+  /-- rendezvous worker → collector, the consumer asks to stop -/
+  | deliverStop (s : Par) : 0 < s.holding → s.collector = true → s.stopped = false →
+      Step fixed s { s with holding := s.holding - 1, idle := s.idle + 1, stopped := true,
+                            collector := fixed }
+  /-- a worker sees `source` closed and exits -/
+  | workerExit (s : Par) : s.mainDone = true → 0 < s.idle →
+      Step fixed s { s with idle := s.idle - 1 }
+  /-- all workers have exited: `result` is closed and the collector ends -/
+  | collectorEnd (s : Par) : s.collector = true → s.mainDone = true → s.idle = 0 → s.holding = 0 →
+      Step fixed s { s with collector := false }
+
+inductive Reach (fixed : Bool) (s0 : Par) : Par → Prop
+  | refl : Reach fixed s0 s0
+  | step {s s'} : Reach fixed s0 s → Step fixed s s' → Reach fixed s0 s'
+
+/-- decreases with every step: no run is longer than `measure init` -/
+def Par.measure (s : Par) : Nat :=
+  4 * s.src + 2 * s.holding + s.idle + (if s.mainDone then 0 else 1) + (if s.collector then 1 else 0)
